@@ -136,6 +136,15 @@ func BuildValidators(ids []idx.ValidatorID, weights []uint64) *pos.Validators {
 	return b.Build()
 }
 
+// persistDB is a handle on a harness-owned epoch database: Close releases the handle only, Drop deletes the database.
+type persistDB struct {
+	kvdb.Store
+	drop func()
+}
+
+func (p *persistDB) Close() error { return nil }
+func (p *persistDB) Drop()        { p.drop() }
+
 func copyDB(src kvdb.Store, onDrop func()) kvdb.Store {
 	dst := memorydb.NewWithDrop(onDrop)
 	it := src.NewIterator(nil, nil)
@@ -168,12 +177,14 @@ func (in *Inst) open() {
 		scfg = *in.Cfg.StoreCfg
 	}
 	in.Store = abft.NewStore(in.MainDB, func(e idx.Epoch) kvdb.Store {
+		// epoch databases behave like on-disk databases named after the epoch: closing a handle keeps the
+		// content, only Drop removes it, and opening the same epoch number again finds whatever was left
 		db, ok := in.EpDBs[e]
 		if !ok {
-			db = memorydb.NewWithDrop(func() { delete(in.EpDBs, e) })
+			db = memorydb.New()
 			in.EpDBs[e] = db
 		}
-		return db
+		return &persistDB{Store: db, drop: func() { delete(in.EpDBs, e) }}
 	}, crit, scfg)
 	in.VI = vecfc.NewIndex(crit, in.Cfg.Index.Config())
 	in.L = abft.NewIndexedLachesis(in.Store, in.In, &adapters.VectorToDagIndexer{Index: in.VI}, crit, abft.LiteConfig())
@@ -222,9 +233,8 @@ func (in *Inst) boot() {
 // source (the application's event storage) and the block log are carried over.
 func (in *Inst) Restart() *Inst {
 	n := &Inst{In: in.In, Cfg: in.Cfg, Seal: in.Seal, MainDB: copyDB(in.MainDB, func() {}), EpDBs: map[idx.Epoch]kvdb.Store{}}
-	ep := in.Store.GetEpoch()
-	if db, ok := in.EpDBs[ep]; ok {
-		n.EpDBs[ep] = copyDB(db, func() { delete(n.EpDBs, ep) })
+	for ep, db := range in.EpDBs { // every epoch database that was not dropped survives the restart
+		n.EpDBs[ep] = copyDB(db, func() {})
 	}
 	n.Blocks = append(n.Blocks, in.Blocks...)
 	n.OnBlock = in.OnBlock
